@@ -6,6 +6,7 @@ import TantivyModel.Model.Store.JsonNumber
 import TantivyModel.Model.Store.DocPath
 import TantivyModel.Model.Store.Framing
 import TantivyModel.Model.Store.Utf8
+import TantivyModel.Model.Store.Lz4
 /-!
 Line protocol of the C09 model (doc store). Compression is `none` in every whole-file request
 (the harness feeds lz4/zstd stores block-wise after decompressing with the real codec).
@@ -176,6 +177,35 @@ def handle : List String → String
       | some d => showDoc d
       | none => "err"
     | none => "bad-op"
+  | ["lz4dec", h] =>
+    match bytesOfHex h with
+    | some bs => showOptBytes (lz4Decode bs)
+    | none => "bad-op"
+  | ["getlz4", fh, ds] =>
+    -- the model reader on a store written with `Compressor::Lz4` (frame + LZ4 block decoder)
+    match bytesOfHex fh, natList ds with
+    | some file, some ds =>
+      match openStore file with
+      | some sf => joinOr (ds.map fun d => showOptBytes (getBytes lz4Compression sf d))
+      | none => "err"
+    | _, _ => "bad-op"
+  | ["cdfield", f] =>
+    match f.toNat? with
+    | some f => if f ≥ 4294967296 then "bad-op" else
+      match cdAddDocChecked [] [(BitVec.ofNat 32 f, .null)] with
+      | some _ => "ok"
+      | none => "panic"
+    | none => "bad-op"
+  | ["mergemapped", bs, segs, order] =>
+    -- `write_storable_fields` with a non-trivial doc-id mapping: for every new doc the ordinal of
+    -- the source segment whose next live document is taken
+    match bs.toNat?, (segs.splitOn ";").mapM parseSeg, natList order with
+    | some bs, some segs, some order =>
+      let its := segs.map fun s => iterRaw s.codec s.store s.alive
+      match mergeMapped Compression.none K (Writer.new bs) its order with
+      | some w => hexOfBytes (w.close Compression.none P)
+      | none => "err"
+    | _, _, _ => "bad-op"
   | ["frame", lens] =>
     -- the 4-byte header lz4 / zstd blocks start with, for a block of documents of these lengths
     match natList lens with
